@@ -35,31 +35,32 @@ type Finding struct {
 }
 
 type Ctx struct {
-	Prop      string
-	Tier      string // quick | thorough
-	Seed      uint64
-	Level     string
-	VerifDir  string
-	Scratch   string
-	RepoDir   string
-	ReplayIn  string // non-empty: replay mode
-	start     time.Time
-	mu        sync.Mutex
-	evals     int64
-	counters  map[string]int64
-	distinct  map[string]map[string]struct{}
-	samples   []any
-	maxSample int
-	known     []Finding
-	knownHit  map[string]int
-	viol      int
-	violSigs  map[string]int
-	incon     map[string]int64
-	assume    []string
-	rule      string
-	extra     map[string]any
+	Prop       string
+	Tier       string // quick | thorough
+	Seed       uint64
+	Level      string
+	VerifDir   string
+	OutDir     string // evidence/, replays/, bin/ live here (VERIF_OUT, default VerifDir)
+	Scratch    string
+	RepoDir    string
+	ReplayIn   string // non-empty: replay mode
+	start      time.Time
+	mu         sync.Mutex
+	evals      int64
+	counters   map[string]int64
+	distinct   map[string]map[string]struct{}
+	samples    []any
+	maxSample  int
+	known      []Finding
+	knownHit   map[string]int
+	viol       int
+	violSigs   map[string]int
+	incon      map[string]int64
+	assume     []string
+	rule       string
+	extra      map[string]any
 	nontrivial map[string]struct{}
-	broken    []string
+	broken     []string
 	exhaustive *bool
 	wviol      []workerViolation
 	workerSeq  int
@@ -96,6 +97,7 @@ func New(prop, level string) *Ctx {
 		Prop: prop, Tier: *tier, Seed: seed, Level: level,
 		VerifDir: envOr("VERIF_DIR", "/verif"),
 		RepoDir:  envOr("VERIF_REPO", "/repo"),
+		OutDir:   envOr("VERIF_OUT", envOr("VERIF_DIR", "/verif")),
 		Scratch:  envOr("VERIF_SCRATCH", ""),
 		ReplayIn: *replay,
 		start:    time.Now(),
@@ -128,7 +130,16 @@ func (c *Ctx) Rand(stream uint64) *rand.Rand {
 }
 
 func (c *Ctx) loadKnown() {
-	b, err := os.ReadFile(filepath.Join(c.VerifDir, "known_findings.json"))
+	c.loadKnownFile(filepath.Join(c.VerifDir, "known_findings.json"))
+	more, _ := filepath.Glob(filepath.Join(c.VerifDir, "known_findings.d", "*.json"))
+	sort.Strings(more)
+	for _, f := range more {
+		c.loadKnownFile(f)
+	}
+}
+
+func (c *Ctx) loadKnownFile(path string) {
+	b, err := os.ReadFile(path)
 	if err != nil {
 		return
 	}
@@ -136,7 +147,7 @@ func (c *Ctx) loadKnown() {
 		Findings []Finding `json:"findings"`
 	}
 	if err := json.Unmarshal(b, &all); err != nil {
-		c.Broken("known_findings.json unreadable: %v", err)
+		c.Broken("%s unreadable: %v", path, err)
 		return
 	}
 	for _, f := range all.Findings {
@@ -252,7 +263,7 @@ func (c *Ctx) Violation(signature, what string, witness any) bool {
 		return false
 	}
 	c.viol++
-	dir := filepath.Join(c.VerifDir, "replays")
+	dir := filepath.Join(c.OutDir, "replays")
 	_ = os.MkdirAll(dir, 0o755)
 	path := filepath.Join(dir, fmt.Sprintf("%s-%s-%d-%d.json", c.Prop, c.Tier, c.Seed, c.viol))
 	w := map[string]any{
@@ -332,7 +343,7 @@ func (c *Ctx) Finish() {
 	ev := map[string]any{
 		"property_id": c.Prop, "tier": c.Tier, "seed": c.Seed, "level": c.Level,
 		"coverage": cov, "assumptions": append([]string{}, c.assume...),
-		"wall_s":   time.Since(c.start).Seconds(), "violations": c.viol,
+		"wall_s": time.Since(c.start).Seconds(), "violations": c.viol,
 	}
 	if ev["assumptions"] == nil {
 		ev["assumptions"] = []string{}
@@ -344,7 +355,7 @@ func (c *Ctx) Finish() {
 	c.mu.Unlock()
 
 	if c.ReplayIn == "" {
-		dir := filepath.Join(c.VerifDir, "evidence")
+		dir := filepath.Join(c.OutDir, "evidence")
 		_ = os.MkdirAll(dir, 0o755)
 		b, _ := json.MarshalIndent(ev, "", " ")
 		if err := os.WriteFile(filepath.Join(dir, c.Prop+".json"), append(b, '\n'), 0o644); err != nil {
